@@ -59,7 +59,9 @@ impl MemTableSource {
     }
 
     fn determine_limit(&self, ctx: &QueryContext) -> Option<usize> {
-        if ctx.should_defer_limit() {
+        // LIMIT on an aggregate caps the number of groups (applied by the aggregate merger),
+        // never the rows fed to the aggregators.
+        if ctx.should_defer_limit() || self.config.plan.aggregate_plan.is_some() {
             None
         } else {
             self.config
